@@ -476,6 +476,10 @@ STMT_SHAPES = [
     "if (k) {D}; else switch (k) default: k += {U};",
     "if (k) if (k > 1) {D}; else k = 7; else k += {U};",
     "while (k < 1) if (k) {D}; else k += {U};",
+    # the controlling expression of a do statement belongs to the statement's block as well
+    "do k++; while (({D}), k < 2); k += {U};",
+    "do do k++; while (({D}), k < 2); while (k < {U});",
+    "{{ do k++; while (({D}), k < 2); }} k += {U};",
 ]
 
 
